@@ -6,3 +6,5 @@ git -C /repo apply $P || { echo "PATCH-DOES-NOT-APPLY $1"; exit 3; }
 /verif/run.sh $ID $TIER 2>&1 | grep -v "^KNOWN" | cut -c1-220 | tail -4
 git -C /repo checkout -- .
 rm -rf /verif/replays/$ID
+# rebuild against the restored tree so that the binaries never carry a seeded change
+(cd /verif/harness && cargo build --release --offline -p vcheck >/dev/null 2>&1; cargo build --release --offline -p fs_nowat >/dev/null 2>&1)
